@@ -77,3 +77,45 @@ Proof.
   - cbn [outcome_of] in H. inversion H. exists prod, ws. repeat split; auto.
   - destruct x; cbn in H; try discriminate. destruct o; discriminate.
 Qed.
+
+(* ---------- C11 on the code as written ---------------------------------------------------- *)
+
+From MV Require Import NextLevel ShapeTyping Anchors.
+
+Lemma target_valid c s vt : target c s true = Some vt -> is_valid c s true = true.
+Proof. unfold target, with_match, is_valid. destruct (typing c s true); [reflexivity|discriminate|discriminate]. Qed.
+
+(* the product of the translated assemble, read from any origin and wrapped by the generic
+   next-level module class, is accepted by the translated is_valid *)
+Theorem src_next_level (sh : shape) (e' : enzyme) (k k' : nat) vector modules prod ws (j : Z) (i : nat) :
+  good_ent vector -> Forall good_ent modules -> map ent_id modules = seq 0 (List.length modules) ->
+  cpat (ent_cls vector) = shape_pat sh -> crole (ent_cls vector) = RVector ->
+  embeds (esite e') (rc_codes (esite e')) (eoff e') (eovh e') k k' sh = true ->
+  (0 < List.length (esite e'))%nat ->
+  vector_assemble (S (S (List.length modules))) vector modules = Ok (prod, ws) ->
+  (forall INS vt, pr_seq prod = INS ++ vt -> target (ent_cls vector) (ent_seq_w vector) true = Some vt ->
+     Forall nucl INS /\ (eovh e' + 2 <= List.length INS)%nat) ->
+  occurs_once (esite e') (pr_seq prod) -> occurs_once (rc_codes (esite e')) (pr_seq prod) ->
+  Z.of_nat (List.length (pr_seq prod)) <= py_MAXSIZE ->
+  StructuredRecord_is_valid (src_entity i (generic_cls RModule e') (rotr j (pr_seq prod))) = Ok true.
+Proof.
+  intros Gv Gm Hids Hp Hr Hemb Hs HA Hins O1 O2 Hfit.
+  pose proof (vector_assemble_eq vector modules Gv Gm Hids) as H. rewrite HA in H. cbn [outcome_of] in H.
+  destruct (assemble_raw (ent_cls vector) (ent_seq_w vector) (map raw_of modules)) as [w used unused| | | |] eqn:AR;
+    cbn [forget_used] in H; try discriminate.
+  inversion H; subst w.
+  destruct (assemble_raw_word _ _ _ _ _ _ AR) as (chain & vt & Ht & Hw & _).
+  destruct (Hins _ _ Hw Ht) as [Hn Hl].
+  pose proof (next_level_valid (ent_cls vector) sh e' k k' (ent_seq_w vector) (List.concat (map mfrag chain)) j
+                Hp Hr Hemb Hs (target_valid _ _ _ Ht) Hn Hl vt Ht) as NL.
+  cbv zeta in NL. rewrite <- Hw in NL. specialize (NL O1 O2).
+  destruct NL as (O5 & O3 & T & lead & trail & Hobs & _).
+  assert (Hf : fits (src_entity i (generic_cls RModule e') (rotr j (pr_seq prod))))
+    by (unfold fits, src_entity; cbn; now rewrite rotr_length).
+  rewrite (StructuredRecord_is_valid_eq _ Hf).
+  assert (Hc : ent_circ (src_entity i (generic_cls RModule e') (rotr j (pr_seq prod))) = true)
+    by (unfold ent_circ, src_entity; cbn; apply orb_true_r).
+  rewrite Hc. cbn [src_entity ent_cls ent_record pr_seq]. f_equal.
+  change (generic_cls RModule e') with (C RModule e' (module_structure e')).
+  exact (f_equal (fun x => fst (fst (fst (fst x)))) Hobs).
+Qed.
